@@ -293,6 +293,54 @@ class Shadow:
         return ns
 
 
+def shadow_all(modname: str, overrides: Optional[Dict[str, Any]] = None, loops_by_fn: Optional[Dict[str, dict]] = None) -> Dict[str, Any]:
+    """Namespace in which the CURRENT text of the whole module has been executed with EVERY function (module level and
+    methods) rewritten by xform - comprehensions, star calls, displays; loop cuts for the functions listed in
+    `loops_by_fn` (qualname -> loops dict).  Decorators are kept (singledispatch registrations are part of the text)."""
+    real = importlib.import_module(modname)
+    tree = src.module_ast(modname)
+    tree = src._DropImports().visit(tree)
+    for node in ast.walk(tree):
+        b = getattr(node, "body", None)
+        if isinstance(b, list) and not b:
+            b.append(ast.Pass())
+
+    class _Ann(ast.NodeTransformer):
+        """type annotations name the real builtin classes, not the rebound symbolic-aware callables (singledispatch reads them)"""
+
+        def visit_Name(self, n):
+            if n.id in vrt.REBOUND_BUILTINS and hasattr(__import__("builtins"), n.id):
+                return ast.Attribute(value=ast.Name(id="_pybuiltins", ctx=ast.Load()), attr=n.id, ctx=ast.Load())
+            return n
+
+    def rewrite(holder, prefix):
+        for i, n in enumerate(holder.body):
+            if isinstance(n, ast.FunctionDef):
+                for a in ast.walk(n.args):
+                    if isinstance(a, ast.arg) and a.annotation is not None:
+                        a.annotation = _Ann().visit(a.annotation)
+                if n.returns is not None:
+                    n.returns = _Ann().visit(n.returns)
+                q = prefix + n.name
+                ft = xform.FunctionTransformer((loops_by_fn or {}).get(q, {}), {}, q)
+                holder.body[i] = ft.transform(n, keep_decorators=True)
+            elif isinstance(n, ast.ClassDef):
+                rewrite(n, prefix + n.name + ".")
+    rewrite(tree, "")
+    ast.fix_missing_locations(tree)
+    ns = dict(real.__dict__)
+    ns["__name__"] = modname
+    ns["_vfw"] = vrt
+    ns["_pybuiltins"] = __import__("builtins")
+    ns.update(vrt.REBOUND_BUILTINS)
+    for k, v in SPEC_NAMES.items():
+        ns.setdefault(k, v)
+    if overrides:
+        ns.update(overrides)
+    exec(compile(tree, src.path_of(modname), "exec"), ns)
+    return ns
+
+
 # ------------------------------------------------------------------------------------------
 # verification of one function against its contract
 
